@@ -56,6 +56,46 @@ def time_ranges(fn: FuncInfo, int_names: Set[str]):
             yield n, ok, 'linspace without an integer num' if not ok else 'linspace(num=n)'
 
 
+def _check_similar_is_fresh(ctx: Ctx) -> None:
+    """C14.i: a "similar" generator starts its own process at time 0: it is constructed, not copied from a running one."""
+    from ..astutil import expander
+    M = ctx.model
+    ctx.rule('C14.i', 'get_similar_fading_generator returns a generator built by a constructor call (fresh time cursor and sample buffer); a copy of '
+                      '`self` carries the running cursor and the last generated samples along', floor=2)
+    base = M.cls('FadingSampleGenerator')
+    for c in M.subclasses(base):
+        f = c.methods.get('get_similar_fading_generator')
+        if f is None:
+            continue
+        construct = f.qualname
+        ctx.instance('C14.i', construct)
+        ex = expander(f)
+        rets = [n for n in walk_no_nested(f.node) if isinstance(n, ast.Return) and n.value is not None]
+        if not rets:
+            ctx.error('C14.i: %s returns nothing (cannot tell)' % construct)
+        verdicts = []
+        sn = f.self_name or 'self'
+        for r in rets:
+            v = ex(r.value)
+            fn_ = norm(v.func) if isinstance(v, ast.Call) else ''
+            if isinstance(v, ast.Call) and (fn_ in M.classes and M.classes[fn_] in [c] + M.mro(c) + M.subclasses(c) or fn_ in ('type(%s)' % sn, '%s.__class__' % sn)):
+                verdicts.append('constructed')
+            elif isinstance(v, ast.Call) and fn_ in ('copy.copy', 'copy.deepcopy', 'copy', 'deepcopy') and v.args and norm(v.args[0]) == sn:
+                resets = {t.attr for n in walk_no_nested(f.node) if isinstance(n, ast.Assign) for t in n.targets
+                          if isinstance(t, ast.Attribute) and isinstance(r.value, ast.Name) and norm(t.value) == r.value.id}
+                verdicts.append('copied' if not {'_current_time', '_samples'} <= resets else 'copied-and-reset')
+            else:
+                verdicts.append('unknown:' + norm(v)[:40])
+        if any(x.startswith('unknown') for x in verdicts) and 'copied' not in verdicts:
+            ctx.error('C14.i: %s returns `%s`, neither a constructor call nor a copy of self (cannot tell)' % (construct, verdicts))
+        ok = 'copied' not in verdicts
+        ctx.obligation('C14.i', construct, ok, {'returns': verdicts})
+        if not ok:
+            ctx.violation('C14.i', construct, 'returns a copy of `self`: the new generator inherits the running time cursor (_current_time) and the last '
+                          'generated samples of its parent, so its sample k is not the model value at k x Ts and get_samples() returns the '
+                          'parent\'s block', f.path, f.lineno, operand='copy-of-self')
+
+
 def check(ctx: Ctx) -> None:
     M = ctx.model
     ctx.assume('E1 assumptions; num_samples/NSamples are integers (the property quantifies over integer request sizes)')
@@ -153,6 +193,7 @@ def check(ctx: Ctx) -> None:
     check_block_loops_cover(ctx, 'C14.g', [FG, 'pyphysim/channels/fading.py'], floor=3)
     from ..idioms import check_no_tolerance_fast_paths
     check_no_tolerance_fast_paths(ctx, 'C14.h', [FG], floor=10)
+    _check_similar_is_fresh(ctx)
     # ------------------------------------------------------------------ C14.c
     ctx.rule('C14.c', 'DSF: per-ray phases follow the configured shape', floor=10)
     analyse_class(ctx, 'C14.c', JAKES, 'JakesSampleGenerator')
